@@ -22,7 +22,8 @@
 (*    bc (E445), trigger type (E44) vs RDH; next TDH: bc decreasing (E440);     *)
 (*    continuation TDH: continuation 0 (E41), bc (E441), orbit (E442), trigger  *)
 (*    type (E443); CDW user field changed with index != 0 (E81); data word id   *)
-(*    invalid (E70), lane inactive (E72 inner / E71 outer), outer input 7 (E73) *)
+(*    invalid (E70), lane inactive (E72 inner / E71 outer), outer input 7 (E73),*)
+(*    a CDW / IHW / DDW0 identifier in place of a data word (E70 / E991)        *)
 (*  payload: more than 15 bytes of 0xFF padding (code-less payload error at the *)
 (*    RDH; the protocol state is reset)                                         *)
 EXTENDS ItsChecker, Mk, TLC
@@ -187,6 +188,11 @@ WordFaults(l, w) ==
    \cup (IF IsDataId(id) THEN {[kind |-> "dw_id_invalid", fam |-> "70", w |-> [w EXCEPT ![10] = 41]],
                                [kind |-> "dw_lane_inactive", fam |-> IF Ob THEN "71" ELSE "72", w |-> [w EXCEPT ![10] = InactiveId]]} ELSE {})
    \cup (IF IsDataId(id) /\ Ob THEN {[kind |-> "dw_ob_input7", fam |-> "73", w |-> [w EXCEPT ![10] = 71]]} ELSE {})
+   \* identifiers of OTHER word types in place of a data word: a CDW id is only a CDW at the start of the data (later it is an invalid data word id),
+   \* a status word id is not legal inside the data section
+   \cup (IF IsDataId(id) /\ ~g[l].sod THEN {[kind |-> "dw_id_is_cdw_id", fam |-> "70", w |-> [w EXCEPT ![10] = ID_CDW]]} ELSE {})
+   \cup (IF IsDataId(id) THEN {[kind |-> "dw_id_is_ihw_id", fam |-> "991", w |-> [w EXCEPT ![10] = ID_IHW]],
+                               [kind |-> "dw_id_is_ddw0_id", fam |-> "991", w |-> [w EXCEPT ![10] = ID_DDW0]]} ELSE {})
 
 AddWordWith(l, w, wreal, flt) ==
    LET skip == ~Its \/ g[l].padf            \* payload not examined (no target), or skipped because of its padding
